@@ -8,6 +8,7 @@ import (
 	"context"
 	"errors"
 	"fmt"
+	"github.com/plgd-dev/go-coap/v3/message"
 	"strings"
 	"time"
 
@@ -65,7 +66,7 @@ func scenario(c cfg) *mcx.Scenario {
 				i := idx[req]
 				path := byte('z')
 				if i < n {
-					path = c.Paths[i]
+					path = lower(c.Paths[i])
 				}
 				w.total++
 				w.perPath[path]++
@@ -96,7 +97,14 @@ func scenario(c cfg) *mcx.Scenario {
 			mk := func(i int, path byte) (*pool.Message, context.CancelFunc) {
 				ctx, cancel := context.WithCancel(context.Background())
 				m := p.AcquireMessage(ctx)
-				_ = m.SetPath("/" + string(path))
+				_ = m.SetPath("/" + string(lower(path)))
+				if path != lower(path) {
+					// same target path, other request options (a conditional / proxy-style request): still the same endpoint
+					m.SetOptionBytes(message.ETag, []byte{0xe0, byte(i)})
+					m.SetOptionString(message.URIHost, fmt.Sprintf("host%d", i))
+					m.SetOptionUint32(message.Observe, 1)
+					m.SetOptionString(message.URIQuery, fmt.Sprintf("q=%d", i))
+				}
 				idx[m] = i
 				return m, cancel
 			}
@@ -142,7 +150,7 @@ func scenario(c cfg) *mcx.Scenario {
 					switch e.kind {
 					case "arrive":
 						w.arrived[e.i] = true
-						w.arrival[c.Paths[e.i]] = append(w.arrival[c.Paths[e.i]], e.i)
+						w.arrival[lower(c.Paths[e.i])] = append(w.arrival[lower(c.Paths[e.i])], e.i)
 					case "cancel":
 						w.cancelled[e.i] = true
 						if !w.ranDo[e.i] {
@@ -222,6 +230,14 @@ func scenario(c cfg) *mcx.Scenario {
 	}
 }
 
+// an upper-case letter in cfg.Paths is a request for the same path as the lower-case letter that carries further options
+func lower(b byte) byte {
+	if b >= 'A' && b <= 'Z' {
+		return b + 'a' - 'A'
+	}
+	return b
+}
+
 func main() {
 	r := ev.Start("C16", "model_checking")
 	var scs []*mcx.Scenario
@@ -232,6 +248,11 @@ func main() {
 			scs = append(scs, scenario(cfg{Total: l[0], Endpoint: l[1], Paths: p, Burst: true, Preempt: ev.Pick(r, 1, 2)}))
 		}
 		scs = append(scs, scenario(cfg{Total: l[0], Endpoint: l[1], Paths: "ppq", Preempt: ev.Pick(r, 2, 3)}))
+		if li == 0 || li == 1 || li == 3 || li == 7 {
+			for _, p := range []string{"pPp", "PpP", "pPq"} {
+				scs = append(scs, scenario(cfg{Total: l[0], Endpoint: l[1], Paths: p}))
+			}
+		}
 		four := []string{"pppp"}
 		if li < 3 || (r.Thorough() && li < 6) {
 			four = ev.Pick(r, []string{"pppp", "ppqq"}, []string{"pppp", "ppqq", "pqpp"})
